@@ -162,6 +162,15 @@ K("O10.1", ["C10"], "compiler", "c10_add_constant", level="bounded", bound="cons
   desc="returned slot holds the same type and content; earlier slots unchanged; index in range")
 
 # ---------------------------------------------------------------------------------------------
+# C11 structured control flow
+# ---------------------------------------------------------------------------------------------
+V("O11.1", ["C11", "C02", "C05"], "c11_control", expect_verified=10,
+  functions=["to_u16", "to_u8", "LoopContext::new", "Compiler::last_instruction_is", "Compiler::remove_last_instruction",
+             "Compiler::compile_statement arm Stmt::Break", "Compiler::compile_statement arm Stmt::Continue",
+             "Compiler::compile_expression arm Expr::If", "Compiler::compile_expression arm Expr::While"],
+  desc="If: JumpIfFalse right after the condition targets the byte after the consequence's Jump, that Jump targets the end, no placeholder left, sub-trees compiled once in source order; While: back jump to the first byte of the condition, JumpIfFalse and EVERY stop recorded for this loop target the first byte after the loop, loop context popped, enclosing loops' contexts untouched; Break/Continue: outside a loop SyntaxError with nothing emitted, inside they act on the innermost context only; conversions to 16/8-bit operands never panic")
+
+# ---------------------------------------------------------------------------------------------
 # per-property information for the evidence files
 # ---------------------------------------------------------------------------------------------
 NOT_APPLICABLE = {
@@ -170,6 +179,14 @@ NOT_APPLICABLE = {
 }
 
 PROPERTIES = {
+    "C11": {
+        "level": "proof",
+        "claim": "Jump emission and patching are proved per arm on the real compiler code (Verus, verbatim arms Expr::If, Expr::While, Stmt::Break, Stmt::Continue for code buffers and loop nestings of every size): every jump of an if / while / stop / volgende ends up targeting exactly the position the construct's meaning requires, stop/volgende touch the innermost loop context only, and misplaced ones are rejected before anything is emitted; the machine's Jump / JumpIfFalse / Pop / Null arms do what the operands say (unit c02_arms); operand patching changes exactly two bytes (Kani).",
+        "note": "Trusted: Verus/Z3, extraction rules R1,R4,R4d,R12,R13 + ghost hints (erased). ASSUMED (induction hypothesis, stated as gen_post in prelude_compiler.rs): the recursive compile_expression / compile_block_statement calls are append-only, keep the peephole invariant, restore the loop nesting and record only well-formed stop jumps - verified for the arms under contract, not for all arms. NOT decided: the VALUE of a branch / absence of residue per iteration (needs stack typing of the emitted code), antwoord from nested depth (composition with C12).",
+        "design_ref": "DESIGN.md 3.8",
+        "undecided": ["branch values and stack balance per iteration (compile-side stack typing)", "induction hypothesis gen_post for the arms not under contract"],
+        "assumptions": ["gen_post for recursive generator calls (prelude_compiler.rs)"],
+    },
     "C10": {
         "level": "proof",
         "claim": "The compiler's choice between a fused variable-op-constant instruction and the generic sequence is proved meaning-preserving per function (Verus, verbatim bodies of mirror_operator, compile_const_var_infix_expression, compile_operator and the Expr::Infix arm): a fused opcode is emitted only with the operator's meaning for `x op c` or the mirrored meaning for `c op x`; the machine arms compute exactly the tabled meaning on (local, constant) / (lower, top) (unit c02_arms); the mirror laws are a lemma (lemma_mirror, same unit) over the integer contracts of C06 (O06.1/O06.2/O06.3: each operator IS the mathematical operator); the constant pool never changes an existing entry (Kani, bounded); Get/SetGlobal and Get/SetLocal arms have the same load/store contract.",
